@@ -700,3 +700,98 @@ Example C01_static_split_merge_left_partial_example :
   (exists s', merge_left sx_s 1 = Ok s' /\ blk_of (base s') 0 = blk_of (base s') 1) /\
   slack_val (base sx_s) 0 < 0.
 Proof. exact merge_left_split_example. Qed.
+
+(* ---------------- the in-heap order inside Blocks::split (Vpsc/StaticInHeap.v): `ml_roots_ok` discharged.
+   HW s M = the time-stamp / heap invariant of mergeLeft's loop in the split context (bit 65536 of Vpsc/StaticRefB.v,
+   evaluated on every visited state): T1/T2 (stamps <= counter), w_TS (a constraint is stale by time stamp only if its left
+   end is in the current block M), lengths, and every in-heap of an inhabited block is duplicate-free, ordered on its
+   CURRENT keys (Rcur), sound and complete.  `stamp s l` = the state after mergeLeft's "l->timeStamp = ++blockTimeCtr". *)
+From Adapt Require Import Vpsc.StaticInHeap Vpsc.StaticInHeapEx.
+
+(* one iteration of mergeLeft's loop keeps the heap invariant, whatever the geometry *)
+Theorem C01_static_split_in_heap_step s M c0 s' M' c' :
+  MLH s M (Some c0) -> ml_body s M c0 = Ok (s', M', c') -> MLH s' M' c'.
+Proof. exact (ml_body_MLH s M c0 s' M' c'). Qed.
+Print Assumptions C01_static_split_in_heap_step.
+
+(* the root findMinInConstraint delivers is a most violated in-constraint of the current block (bit 4096, proved) *)
+Theorem C01_static_split_in_heap_root_most_violated s M c : MLH s M c -> in_root_ok s M c.
+Proof. exact (MLH_root s M c). Qed.
+Print Assumptions C01_static_split_in_heap_root_most_violated.
+
+Theorem C01_static_split_in_heap_roots fuel s r c : MLH s r c -> ml_roots_ok fuel s r c.
+Proof. exact (MLH_roots fuel s r c). Qed.
+Print Assumptions C01_static_split_in_heap_roots.
+
+(* the mergeLeft half of Blocks::split without the heap-root hypothesis *)
+Theorem C01_static_split_merge_left Yb rv s l s' :
+  MLS Yb rv (base s) l -> HW (stamp s l) l -> inhabited (base s) l ->
+  merge_left s l = Ok s' ->
+  exists M, MLS Yb rv (base s') M /\
+    (forall i, (i < length (scons (base s')))%nat -> blk_of (base s') (cr (con_of (base s') i)) = M ->
+               blk_of (base s') (cl (con_of (base s') i)) <> M -> 0 <= slack_val (base s') i) /\
+    scons (base s') = scons (base s) /\ svars (base s') = svars (base s).
+Proof. exact (merge_left_split_closed Yb rv s l s'). Qed.
+Print Assumptions C01_static_split_merge_left.
+
+(* and the same run hands the heap / time-stamp invariant (T2, lengths) to the mergeRight that follows *)
+Theorem C01_static_split_merge_left_keeps_heap_invariant s l s' :
+  HW (stamp s l) l -> inhabited (base s) l -> merge_left s l = Ok s' -> exists M c, MLH s' M c.
+Proof. exact (merge_left_split_HW s l s'). Qed.
+Print Assumptions C01_static_split_merge_left_keeps_heap_invariant.
+
+Example C01_static_split_merge_left_example :
+  MLS sx_Yb 2 (base sx_s) 1 /\ HW (stamp sx_s 1) 1 /\ inhabited (base sx_s) 1 /\
+  (exists s', merge_left sx_s 1 = Ok s' /\ blk_of (base s') 0 = blk_of (base s') 1) /\
+  slack_val (base sx_s) 0 < 0.
+Proof. exact merge_left_split_closed_example. Qed.
+
+(* where the premise HW comes from: Solver::refine's first loop (setUpInConstraints / setUpOutConstraints of every
+   block) stamps every constraint with the counter and builds a duplicate-free, ordered, sound and complete in-heap for
+   every block of the list ... *)
+Theorem C01_static_refine_setup_heaps s :
+  book (base s) -> length (ctime s) = length (scons (base s)) ->
+  (length (blocks (base s)) <= length (bin s))%nat ->
+  (forall B, In B (blist (base s)) -> inhabited (base s) B) ->
+  (forall v, (v < length (svars (base s)))%nat -> In (blk_of (base s) v) (blist (base s))) ->
+  let s' := setup_all s in
+  base s' = base s /\ btime s' = btime s /\ ctr s' = ctr s /\
+  length (ctime s') = length (ctime s) /\ length (bin s') = length (bin s) /\ length (bout s') = length (bout s) /\
+  (forall x, (x < length (scons (base s)))%nat -> ctime_of s' x = ctr s) /\
+  (forall B, inhabited (base s) B -> exists h, bin_of s' B = Some h /\ hgoodC s' h /\ hsound s' B h /\ hcomplete s' B h).
+Proof. exact (setup_all_heaps s). Qed.
+Print Assumptions C01_static_refine_setup_heaps.
+
+Example C01_static_refine_setup_heaps_example :
+  book (base sx_s) /\ length (ctime sx_s) = length (scons (base sx_s)) /\
+  (length (blocks (base sx_s)) <= length (bin sx_s))%nat /\
+  (forall B, In B (blist (base sx_s)) -> inhabited (base sx_s) B) /\
+  (forall v, (v < length (svars (base sx_s)))%nat -> In (blk_of (base sx_s) v) (blist (base sx_s))) /\
+  sx_setup_heap = true.
+Proof. exact setup_all_heaps_example. Qed.
+
+(* ... and it survives Block::split of block b into the two NEW blocks l, r (no heaps, stamp 0) as long as the variables
+   outside l sit where they were: s0 = state of refine's second loop, s3 = state Blocks::split calls mergeLeft(l) in.
+   (The relation between s0 and s3 is stated, not yet derived from VpscForest.split_facts: see the _partial theorems.) *)
+Theorem C01_static_split_entry_heap_invariant s0 s3 b l r :
+  T2 s0 -> (forall x, (x < length (scons (base s0)))%nat -> ctime_of s0 x = ctr s0) ->
+  length (ctime s0) = length (scons (base s0)) ->
+  length (bin s0) = length (blocks (base s0)) -> length (btime s0) = length (blocks (base s0)) ->
+  wf_vars (svars (base s0)) -> book (base s0) ->
+  (forall B, inhabited (base s0) B -> exists h, bin_of s0 B = Some h /\ hgoodC s0 h /\ hsound s0 B h /\ hcomplete s0 B h) ->
+  ctime s3 = ctime s0 -> ctr s3 = ctr s0 -> btime s3 = btime s0 ++ [O; O] -> bin s3 = bin s0 ++ [None; None] ->
+  svars (base s3) = svars (base s0) -> scons (base s3) = scons (base s0) ->
+  l = length (blocks (base s0)) -> r = S l -> length (blocks (base s3)) = S (S l) -> (b < l)%nat ->
+  (forall u, (u < length (svars (base s0)))%nat -> blk_of (base s0) u <> b -> blk_of (base s3) u = blk_of (base s0) u) ->
+  (forall u, (u < length (svars (base s0)))%nat -> blk_of (base s0) u = b -> blk_of (base s3) u = l \/ blk_of (base s3) u = r) ->
+  (forall u, (u < length (svars (base s0)))%nat -> blk_of (base s3) u <> l -> Yof (base s3) u == Yof (base s0) u) ->
+  book (base s3) -> act_inv (base s3) -> all_blk_st (base s3) ->
+  HW (stamp s3 l) l.
+Proof. exact (split_entry_HW s0 s3 b l r). Qed.
+Print Assumptions C01_static_split_entry_heap_invariant.
+
+(* non-vacuity: satisfy() on the example merges v0, v1; refine's first loop; the model's own Block::split of that block
+   across its active constraint: every premise holds and mergeLeft(l) returns *)
+Example C01_static_split_entry_heap_invariant_example :
+  HW (stamp sy_3 3) 3 /\ inhabited (base sy_3) 3 /\ sy_returns = true.
+Proof. exact split_entry_HW_example. Qed.
